@@ -468,6 +468,12 @@ func init() {
 					}
 				}
 			}
+			// very porous horizons (organic soils: pore volume 80-92 %) parameterised by a transfer function
+			if w.Cfg.PTF != 0 && r.Bool(0.3) {
+				for i := range w.Soil.Horizons {
+					w.Soil.Horizons[i].PS = r.Range(80, 92)
+				}
+			}
 			// swings of 40 K within days
 			for k := r.Range(1, 6); k > 0; k-- {
 				d := w.Start() + Day(r.Range(0, int(w.Cfg.End-w.Start())))
